@@ -772,6 +772,95 @@ pub fn build_reverse_chain(glyphs: &[u16], variant: u64) -> Vec<u8> {
     t
 }
 
+/// GSUB: DFLT/latn -> `ccmp`, `liga` -> `lookups` MultipleSubst lookups keyed on sorted `glyphs`.
+pub fn build_expansion(glyphs: &[u16], k: u16, lookups: u8, variant: u64) -> Vec<u8> {
+    let p16 = |v: &mut Vec<u8>, x: u16| v.extend_from_slice(&x.to_be_bytes());
+    let nl = usize::from(lookups.max(1));
+    let mut t = Vec::new();
+    p16(&mut t, 1);
+    p16(&mut t, 0);
+    p16(&mut t, 10);
+    let script_list_len = 2 + 2 * 6 + 2 * 14;
+    p16(&mut t, (10 + script_list_len) as u16);
+    let feature_list_len = 2 + 2 * 6 + 2 * (4 + 2 * nl);
+    p16(&mut t, (10 + script_list_len + feature_list_len) as u16);
+    // ScriptList
+    p16(&mut t, 2);
+    t.extend_from_slice(b"DFLT");
+    p16(&mut t, 14);
+    t.extend_from_slice(b"latn");
+    p16(&mut t, 28);
+    for _ in 0..2 {
+        p16(&mut t, 4); // defaultLangSys
+        p16(&mut t, 0); // langSysCount
+        p16(&mut t, 0); // lookupOrder
+        p16(&mut t, 0xFFFF); // requiredFeatureIndex
+        p16(&mut t, 2);
+        p16(&mut t, 0);
+        p16(&mut t, 1);
+    }
+    // FeatureList
+    p16(&mut t, 2);
+    t.extend_from_slice(b"ccmp");
+    p16(&mut t, 14);
+    t.extend_from_slice(b"liga");
+    p16(&mut t, (14 + 4 + 2 * nl) as u16);
+    for f in 0..2 {
+        p16(&mut t, 0);
+        // `liga` holds either the same lookups or (odd variant) only the first one
+        let n = if f == 1 && variant % 2 == 1 { 1 } else { nl };
+        p16(&mut t, n as u16);
+        for i in 0..nl {
+            if i < n {
+                p16(&mut t, i as u16);
+            } else {
+                p16(&mut t, 0); // padding to keep the layout fixed (unused)
+            }
+        }
+    }
+    // LookupList
+    let ll = t.len();
+    p16(&mut t, nl as u16);
+    for _ in 0..nl {
+        p16(&mut t, 0);
+    }
+    let rotate = (variant / 2 % 2) as usize;
+    for i in 0..nl {
+        let at = t.len();
+        let v = ((at - ll) as u16).to_be_bytes();
+        t[ll + 2 + 2 * i..ll + 4 + 2 * i].copy_from_slice(&v);
+        p16(&mut t, 2); // MultipleSubst
+        p16(&mut t, 0);
+        p16(&mut t, 1);
+        p16(&mut t, 8);
+        // subtable: format 1, coverage offset, sequenceCount, sequence offsets
+        let st = t.len();
+        let header = 6 + 2 * glyphs.len();
+        let seq_len = 2 + 2 * usize::from(k);
+        p16(&mut t, 1);
+        p16(&mut t, (header + seq_len * glyphs.len()) as u16);
+        p16(&mut t, glyphs.len() as u16);
+        for j in 0..glyphs.len() {
+            p16(&mut t, (header + seq_len * j) as u16);
+        }
+        for j in 0..glyphs.len() {
+            p16(&mut t, k);
+            for c in 0..usize::from(k) {
+                // copies of the glyph itself, or (rotate) glyphs of the list in turn
+                let g = if rotate == 1 { glyphs[(j + c) % glyphs.len()] } else { glyphs[j] };
+                p16(&mut t, g);
+            }
+        }
+        debug_assert_eq!(t.len() - st, header + seq_len * glyphs.len());
+        p16(&mut t, 1);
+        p16(&mut t, glyphs.len() as u16);
+        for g in glyphs {
+            p16(&mut t, *g);
+        }
+    }
+    t
+}
+
 fn num_glyphs(disk: &Disk) -> Result<u16, String> {
     disk.tables
         .get(&tag_from_str("maxp"))
@@ -935,6 +1024,21 @@ pub fn apply(disk: &mut Disk, s: &Surgery) -> Result<(), String> {
             }
             disk.tables
                 .insert(tag_from_str("GSUB"), Rc::new(build_reverse_chain(&gs, *variant)));
+            Ok(())
+        }
+        Surgery::InstallExpansion { glyphs, k, lookups, variant } => {
+            let n = num_glyphs(disk)?;
+            let mut gs: Vec<u16> = glyphs.iter().copied().filter(|g| *g < n).collect();
+            gs.sort_unstable();
+            gs.dedup();
+            gs.truncate(12);
+            let k = (*k).clamp(0, 600);
+            let lookups = (*lookups).clamp(1, 12);
+            if gs.is_empty() || 64 + usize::from(lookups) * (32 + gs.len() * (6 + 2 * usize::from(k))) > 60000 {
+                return Err("surgery: expansion table does not fit 16-bit offsets".into());
+            }
+            disk.tables
+                .insert(tag_from_str("GSUB"), Rc::new(build_expansion(&gs, k, lookups, *variant)));
             Ok(())
         }
         Surgery::CompactHmtx { num_h_metrics } => {
